@@ -54,7 +54,7 @@ Next == UNCHANGED c
 Spec == Init /\ [][Next]_c
 EmitCase == PrintT(<<"EMIT", ToJson(c)>>)
 
-ASSUME \A i \in 1 .. Len(Ms) : Assert(RequiredOps \subseteq {AlphaOf[i][k].op : k \in 1 .. Len(AlphaOf[i])},
+ASSUME \A i \in 1 .. Len(Ms) : Assert({o \in RequiredOps : Allowed(Ms[i].proj, Ms[i].type, o)} \subseteq {AlphaOf[i][k].op : k \in 1 .. Len(AlphaOf[i])},
                                        <<"alphabet lacks required query kinds", Ms[i].name,
                                          RequiredOps \ {AlphaOf[i][k].op : k \in 1 .. Len(AlphaOf[i])}>>)
 ASSUME \A i \in 1 .. Len(Ms) : PrintT(<<"ALPHA", ToJson([mesh |-> Ms[i].name, type |-> Ms[i].type, q |-> AlphaOf[i]])>>)
